@@ -85,6 +85,10 @@ pub fn range(rng: &mut Rng) -> Range {
 pub const REGEXES: &[&str] = &[
     "a", "o", "b$", "^a", "[a-z]+", "\\d+", "\\w+", "\\s+", ".", ".*", "a|b", "(a)(b)?", "(\\w)(\\w)", "(?P<x>\\w+)",
     "x{2}", "[0-9]{1,2}", "^$", "é", "[^,]+", "\\.txt$", "^[A-Z]", "l+", "(?i)hello", "\\bfoo\\b", "a.c", "^.+$", "(o)(o)?", "B",
+    // word-boundary assertions next to a group: the match depends on the text AROUND it
+    "\\b(\\.\\w+)", "\\B(\\d+)", "(\\w+)\\b", "\\b(o+)", "(l+)\\B", "\\B(\\w)\\b",
+    // valid patterns whose compiled program is large (counted repetition of Unicode classes)
+    "\\w{40}", "^\\pL{30,}$", "[\\w.+-]{1,64}@[\\w-]{1,63}\\.\\w{2,24}", "\\w{2,60}\\d",
 ];
 pub const BAD_REGEXES: &[&str] = &["(", "[a", "*a", "a**", "(?P<x"];
 
@@ -231,4 +235,10 @@ pub fn raw_ok(p: &str, in_sed: bool) -> bool {
         i += 1;
     }
     depth == 0 && !p.ends_with('}')
+}
+
+/// a character whose scalar value is congruent to `c` modulo 256 (a different character whenever one exists)
+pub fn alias_mod256(rng: &mut Rng, c: char) -> char {
+    let k = *rng.pick(&[1u32, 2, 3, 0x20, 0x1F6, 0x4E, 0x100]);
+    char::from_u32(c as u32 + 256 * k).filter(|a| !a.is_whitespace() || c.is_whitespace()).unwrap_or(c)
 }
